@@ -24,8 +24,8 @@ IMPLICIT_REQ = {
     ("set_zero_dim_univ", 0): [("this", "NE", True)],
     # withdrawing a description discards whatever only it knows (its pending rows included): the other
     # description must be complete at that point, or the value of the object changes
-    ("clear_generators_up_to_date", 0): [("this", "CU", True), ("this", "PG", False)],
-    ("clear_constraints_up_to_date", 0): [("this", "GU", True), ("this", "PC", False)],
+    ("clear_generators_up_to_date", 0): [("this", "CU", True), ("this", "PG", False), ("this", "PC", False)],
+    ("clear_constraints_up_to_date", 0): [("this", "GU", True), ("this", "PC", False), ("this", "PG", False)],
 }
 
 # predicate -> (atom, value when the predicate is true)
@@ -50,7 +50,9 @@ EFFECT = {
     "clear_pending_constraints": {"PC": False}, "clear_pending_generators": {"PG": False},
     "clear_constraints_up_to_date": {"CU": False, "CM": False, "PC": False, "SC": False, "SG": False},
     "clear_generators_up_to_date": {"GU": False, "GM": False, "PG": False, "SC": False, "SG": False},
-    "clear_constraints_minimized": {"CM": False}, "clear_generators_minimized": {"GM": False},
+    # a claim withdrawn by the code itself ("CM!" / "GM!") says nothing about pending rows: the invariant
+    # `pending => both minimized' was true of the state before the call, not of the one it leaves
+    "clear_constraints_minimized": {"CM": False, "CM!": True}, "clear_generators_minimized": {"GM": False, "GM!": True},
     "set_sat_c_up_to_date": {"SC": True}, "set_sat_g_up_to_date": {"SG": True},
     "clear_sat_c_up_to_date": {"SC": False}, "clear_sat_g_up_to_date": {"SG": False},
     "update_sat_c": {"SC": True}, "update_sat_g": {"SG": True},
@@ -76,10 +78,11 @@ def entails(st, atom, val):
         # a complete generator description of an object not marked empty holds a point
         return entails(st, "GU", True) and entails(st, "PC", False)
     # rows are pending only on top of two up-to-date (minimized) descriptions, and on one side only
+    observed_not_min = (st.get("CM") is False and not st.get("CM!")) or (st.get("GM") is False and not st.get("GM!"))
     if atom == "PG" and val is False:
-        return st.get("PC") is True or st.get("GU") is False or st.get("CU") is False
+        return st.get("PC") is True or st.get("GU") is False or st.get("CU") is False or observed_not_min
     if atom == "PC" and val is False:
-        return st.get("PG") is True or st.get("GU") is False or st.get("CU") is False
+        return st.get("PG") is True or st.get("GU") is False or st.get("CU") is False or observed_not_min
     if atom == "PG" and val is True:
         return st.get("SP") is True and st.get("PC") is False
     if atom == "PC" and val is True:
@@ -339,12 +342,22 @@ def discharge(ctx, rid, exceptions=None, judged_atoms=("PG", "PC", "CU", "GU", "
             for a in ("CU", "GU"):
                 if a not in eff and a not in raw and entails(raw, a, True):
                     env[(o, a)] = True
+            for a in ("PC", "PG"):
+                if a not in eff and a not in raw and entails(raw, a, False):
+                    env[(o, a)] = False
             for a, v in eff.items():
                 env[(o, a)] = v
+                if a in ("CM", "GM") and (a + "!") not in eff:
+                    env.pop((o, a + "!"), None)
+            if eff:
+                # a flag remembered in a bool local (`const bool adding_pending = can_have_something_pending()`)
+                # speaks of the state before this change
+                for k in [k for k, v in env.items() if k[0] == "bind" and v[0] == o]:
+                    del env[k]
             return env
 
         def forget(env, o):
-            return {k: v for k, v in env.items() if k[0] != o}
+            return {k: v for k, v in env.items() if k[0] != o and not (k[0] == "bind" and v[0] == o)}
 
         def state_of(env, o):
             if env.get((o, "ME?")):
@@ -404,6 +417,19 @@ def discharge(ctx, rid, exceptions=None, judged_atoms=("PG", "PC", "CU", "GU", "
                 o2 = obj_key(f, f.deref(x["c"][0]))
                 if o2 is not None and f.root(f.deref(x["c"][0])) in (("this",),) :
                     env = forget(env, o2)
+            elif x["k"] in ("var", "decl"):
+              for x in ([x] if x["k"] == "var" else [f.deref(c_) for c_ in x.get("c", ())]):
+                if x is None or x["k"] != "var" or not x.get("c") or "bool" not in x.get("t", ""):
+                    continue
+                init = f.deref(x["c"][0])
+                while init is not None and init["k"] in ("cast", "paren") and init.get("c"):
+                    init = f.deref(init["c"][0])
+                if init is not None and init["k"] == "mcall" and not f.call_args(init) and \
+                        (f.call_name(init) in PRED or f.call_name(init) in ("can_have_something_pending", "has_something_pending")):
+                    ob = obj_key(f, f.call_obj(init))
+                    if ob is not None:
+                        env = dict(env)
+                        env[("bind", x["n"])] = (ob, init["i"])
             return env
 
         def edge_effect(cond, taken, env):
@@ -413,6 +439,8 @@ def discharge(ctx, rid, exceptions=None, judged_atoms=("PG", "PC", "CU", "GU", "
                 if cn["k"] == "unop":
                     pol = not pol
                 cn = f.deref(cn["c"][0])
+            if cn is not None and cn["k"] == "ref" and cn.get("dk") == "local" and ("bind", cn.get("n")) in env:
+                cn = f.nodes.get(env[("bind", cn["n"])][1])
             if cn is not None and cn["k"] == "binop" and cn.get("op") in ("==", "!="):
                 t = f.text(cn).replace(" ", "").replace("x.", "")
                 if t in ("space_dim==0", "0==space_dim", "space_dimension()==0") and ((taken == pol) == (cn["op"] == "==")):
@@ -445,6 +473,7 @@ def discharge(ctx, rid, exceptions=None, judged_atoms=("PG", "PC", "CU", "GU", "
             elif nm in PRED:
                 env = dict(env)
                 env[(o, PRED[nm])] = truth
+                env.pop((o, PRED[nm] + "!"), None)
                 if nm == "has_pending_constraints" and truth:
                     env[(o, "PG")] = False
                 if nm == "has_pending_generators" and truth:
@@ -460,6 +489,12 @@ def discharge(ctx, rid, exceptions=None, judged_atoms=("PG", "PC", "CU", "GU", "
                 env = dict(env)
                 env[(o, "CM")] = True
                 env[(o, "GM")] = True
+            elif nm == "can_have_something_pending" and not truth:
+                # Status::OK: rows are pending only when both descriptions are minimized and a saturation
+                # matrix is up to date, which is what can_have_something_pending() tests
+                env = dict(env)
+                env[(o, "PC")] = False
+                env[(o, "PG")] = False
             elif nm in EMPTY_IF_FALSE and not truth:
                 return None       # the object turned out to be empty: the callers return on this edge
             elif nm in EMPTY_IF_FALSE and truth:
@@ -497,7 +532,7 @@ def discharge(ctx, rid, exceptions=None, judged_atoms=("PG", "PC", "CU", "GU", "
                     ctx.excepted(rid, inst, f.where(an), exceptions[ek])
                 else:
                     ctx.violation(rid, inst, f.where(an), "the assertion claims %s about %s, but a path reaches it where only {%s} is known: the suite runs without assertions and the code below relies on the claim" % (
-                        show(a, v), oname, ", ".join(show(k, w) for k, w in sorted(st.items()))))
+                        show(a, v), oname, ", ".join(show(k, w) for k, w in sorted(st.items()) if not k.endswith('!'))))
         for i, (o_, side, m_) in sorted(reads.items()):
             if only_callees is not None:
                 break
@@ -512,7 +547,7 @@ def discharge(ctx, rid, exceptions=None, judged_atoms=("PG", "PC", "CU", "GU", "
                     ctx.excepted(rid, inst, f.where(m_), exceptions[ek])
                     continue
                 ctx.violation(rid, inst, f.where(m_), "the rows of %s are read on a path where %s is not known (state {%s}): the description may be stale" % (
-                    side, show(a, v), ", ".join(show(k, w) for k, w in sorted(st.items()))))
+                    side, show(a, v), ", ".join(show(k, w) for k, w in sorted(st.items()) if not k.endswith('!'))))
         for i, (c, obl) in sorted(sites.items()):
             n_sites += 1
             n_atoms += len(obl)
@@ -534,7 +569,7 @@ def discharge(ctx, rid, exceptions=None, judged_atoms=("PG", "PC", "CU", "GU", "
                 pass
             else:
                 ctx.violation(rid, inst, f.where(c), "%s() requires %s of %s (asserted or tabled precondition), but a path reaches the call where only {%s} is known about it: the suite runs without assertions, so the worker silently proceeds on a stale or unproved state" % (
-                    f.call_name(c), show(a, v), oname, ", ".join(show(k, w) for k, w in sorted(st.items()))))
+                    f.call_name(c), show(a, v), oname, ", ".join(show(k, w) for k, w in sorted(st.items()) if not k.endswith('!'))))
     ctx.count(rid, "asserted atoms judged", n_atoms)
     ctx.count(rid, "obligations on local objects not judged", skipped)
     return n_sites
